@@ -25,6 +25,7 @@ import (
 	"path/filepath"
 	"sort"
 	"strings"
+	"sync/atomic"
 	"testing"
 	"testing/synctest"
 	"time"
@@ -51,17 +52,19 @@ type tokKind struct {
 }
 
 var tokKinds = map[string]tokKind{
-	"k1":     {"k1", "k1", "k1"},   // signed by k1, names k1
-	"k2":     {"k2", "k2", "k2"},   // signed by the key that is rotated in
-	"unk":    {"unk", "zz", "k3"},  // unknown key id
-	"nokid":  {"nokid", "", "k1"},  // no key id, signed by k1
-	"nokid2": {"nokid2", "", "k2"}, // no key id, signed by the key that is rotated in
+	"k1":     {"k1", "k1", "k1"},     // signed by k1, names k1
+	"k2":     {"k2", "k2", "k2"},     // signed by the key that is rotated in
+	"unk":    {"unk", "zz", "k3"},    // unknown key id
+	"nokid":  {"nokid", "", "k1"},    // no key id, signed by k1
+	"nokid2": {"nokid2", "", "k2"},   // no key id, signed by the key that is rotated in
 	"forged": {"forged", "k1", "k3"}, // names k1 but signed by the attacker key
 }
 
 var keyOf = map[string]*keys.Key{"k1": keys.Get("p256a"), "k2": keys.Get("p256b"), "k3": keys.Get("p256c")}
 
-func payloadOf(kind string, i int) []byte { return []byte(fmt.Sprintf(`{"sub":"caller-%d","tok":%q}`, i, kind)) }
+func payloadOf(kind string, i int) []byte {
+	return []byte(fmt.Sprintf(`{"sub":"caller-%d","tok":%q}`, i, kind))
+}
 
 var jwsCache = map[string]*jose.JSONWebSignature{}
 
@@ -78,21 +81,135 @@ func init() {
 	}
 }
 
-func jwksBody(kids []string) []byte {
-	set := jose.JSONWebKeySet{}
-	for _, k := range kids {
-		set.Keys = append(set.Keys, jose.JSONWebKey{Key: keyOf[k].PubForJose(), KeyID: k, Use: "sig", Algorithm: "ES256"})
+func keyEntry(kid string) string {
+	b, err := json.Marshal(jose.JSONWebKey{Key: keyOf[kid].PubForJose(), KeyID: kid, Use: "sig", Algorithm: "ES256"})
+	if err != nil {
+		panic(err)
 	}
-	b, _ := json.Marshal(set)
-	// every published set also carries a key of a type the library does not know: it must be ignored, not fail the download
-	b = bytes.Replace(b, []byte(`{"keys":[`), []byte(`{"keys":[{"kty":"XYZ","kid":"future-1","use":"sig","x":"AAAA"},`), 1)
-	b = bytes.Replace(b, []byte(`,]`), []byte(`]`), 1)
-	return b
+	return string(b)
+}
+
+// JWKS documents. The default document ("" — used by every scheduling scenario and by
+// the warm-up) carries the served keys behind one entry of a key type the library does
+// not know. The document scenarios serve the same key sets with ONE extra entry of
+// another kind at the first / middle / last position, a document without any extra
+// entry ("plain") and a document that consists of unknown key types only ("onlyunk").
+//
+// Either = neither the property statement nor the library's documentation ("ignore any
+// error which might occur because of unknown key types (kty)") decides whether such a
+// document is a good download that serves the other keys or a malformed download: both
+// are accepted, but a token never verifies without a served key and a download that
+// failed leaves the cache alone.
+type docKind struct {
+	Either bool
+	Entry  func(kids []string) string
+}
+
+var docKinds = map[string]docKind{
+	// a key type go-jose does not know (a post-quantum key published next to the regular ones): documented as skipped
+	"unk": {false, func([]string) string {
+		return `{"kty":"AKP","kid":"pq-1","alg":"ML-DSA-44","use":"sig","pub":"AAAA"}`
+	}},
+	// exact duplicate of the newest served key
+	"dup": {false, func(kids []string) string { return keyEntry(kids[len(kids)-1]) }},
+	// an encryption key (P-384) that shares the key id of the newest served signing key: never a candidate for a signature
+	"enc": {false, func(kids []string) string {
+		b, err := json.Marshal(jose.JSONWebKey{Key: keys.Get("p384a").PubForJose(), KeyID: kids[len(kids)-1], Use: "enc", Algorithm: "ECDH-ES"})
+		if err != nil {
+			panic(err)
+		}
+		return string(b)
+	}},
+	// known key types with parameters that cannot be decoded
+	"badrsa": {true, func([]string) string {
+		return `{"kty":"RSA","kid":"rsa-bad","use":"sig","alg":"RS256","n":"***not base64***","e":"AQAB"}`
+	}},
+	"badec": {true, func([]string) string {
+		return `{"kty":"EC","kid":"ec-bad","use":"sig","alg":"ES256","crv":"P-256","x":"AAAA","y":"AAAA"}`
+	}},
+	"crv": {true, func([]string) string {
+		return `{"kty":"EC","kid":"ec-k","use":"sig","alg":"ES256K","crv":"secp256k1","x":"eQlSqeeKMaMn0RU1qYn5TsS5yNC1kJCX0FmqOsd8Pe8","y":"7tcxKh7Jd26ek3ASvM0sLmRLv0tZCv7TuExoZkTfvBg"}`
+	}},
+	// entries that are not JWK objects at all
+	"num":  {true, func([]string) string { return `42` }},
+	"null": {true, func([]string) string { return `null` }},
+}
+
+func splitDoc(doc string) (kind, pos string) {
+	kind, pos, _ = strings.Cut(doc, "@")
+	return
+}
+
+func insertAt(list []string, x string, pos string) []string {
+	i := 0
+	switch pos {
+	case "middle":
+		i = len(list) / 2
+	case "last":
+		i = len(list)
+	}
+	out := append([]string(nil), list[:i]...)
+	out = append(out, x)
+	return append(out, list[i:]...)
+}
+
+func jwksBody(kids []string, doc string) []byte {
+	var entries []string
+	for _, k := range kids {
+		entries = append(entries, keyEntry(k))
+	}
+	kind, pos := splitDoc(doc)
+	switch kind {
+	case "":
+		// every set of the scheduling scenarios also carries a key of a type the library does not know: it must be ignored, not fail the download
+		entries = insertAt(entries, `{"kty":"XYZ","kid":"future-1","use":"sig","x":"AAAA"}`, "first")
+	case "plain":
+	case "onlyunk":
+		entries = []string{`{"kty":"AKP","kid":"pq-1","alg":"ML-DSA-44","use":"sig","pub":"AAAA"}`, `{"kty":"XYZ","kid":"future-1","use":"sig","x":"AAAA"}`}
+	default:
+		entries = insertAt(entries, docKinds[kind].Entry(kids), pos)
+	}
+	return []byte(`{"keys":[` + strings.Join(entries, ",") + `]}`)
+}
+
+// servedKeys is the reference reading of a document: the list of signing keys it
+// serves (a duplicated entry is listed twice; an unknown key type, an encryption
+// key and — when the document counts as a good download at all — an undecodable
+// entry serve nothing).
+func servedKeys(kids []string, doc string) []string {
+	kind, pos := splitDoc(doc)
+	switch kind {
+	case "dup":
+		return insertAt(kids, kids[len(kids)-1], pos)
+	case "onlyunk":
+		return []string{}
+	}
+	return kids
+}
+
+func docEither(doc string) bool {
+	kind, _ := splitDoc(doc)
+	return docKinds[kind].Either
+}
+
+func dedupe(K []string) []string {
+	var out []string
+	seen := map[string]bool{}
+	for _, k := range K {
+		if !seen[k] {
+			seen[k] = true
+			out = append(out, k)
+		}
+	}
+	return out
 }
 
 // acceptable is the reference key-selection + signature predicate of the
 // statement for a published set K: a key of K whose id equals the token's key id
 // (or the only key of K when the token has none) and that really signed it.
+// K lists a duplicated entry twice: a token without key id then has two candidates and
+// acceptance is not demanded (completeness uses K as served), but it is allowed (safety
+// uses dedupe(K)).
 func acceptable(kind string, K []string) bool {
 	tk := tokKinds[kind]
 	if len(K) == 0 {
@@ -116,12 +233,13 @@ type scen struct {
 	Tokens    []string `json:"tokens"` // one per caller
 	Skip      bool     `json:"skip_remote_check"`
 	Warm      bool     `json:"warm_cache"`
-	Rot       string   `json:"rotation"` // none | add (k1 -> k1,k2) | replace (k1 -> k2)
+	Rot       string   `json:"rotation"`                     // none | add (k1 -> k1,k2) | replace (k1 -> k2)
 	RotPre    bool     `json:"rotated_before_callers_start"` // the provider rotated after the cache was warmed, before any explored call; otherwise the rotation happens at some JWKS answer the explorer picks
 	MaxFail   int      `json:"max_failing_fetches"`
 	MaxCancel int      `json:"max_cancels"`
 	Deadline  bool     `json:"cancel_by_deadline"` // callers' contexts end by a deadline (caller i: start+(i+1)h) instead of an explicit cancel; expire(ci) advances the fake clock past caller i's deadline
 	FailKinds []string `json:"fail_kinds"`
+	Doc       string   `json:"jwks_document,omitempty"` // "<entry kind>@<first|middle|last>", "plain", "onlyunk"; "" = the default document (see jwksBody). Applies to every 200 answer of the explored history; the warm-up download always gets the default document
 }
 
 func (s scen) sets() (s0, s1 []string) {
@@ -143,7 +261,10 @@ type flight struct {
 	Entered  bool
 	Released bool
 	Outcome  string   // ok | fail:<kind> | abort
-	Keys     []string // for ok
+	Keys     []string // for ok: the signing keys the document serves (reference reading)
+	Nominal  []string // for ok: the provider's key set the document was built from
+	Doc      string   // for ok: document variant
+	Either   bool     // for ok: the document may as well count as a malformed download
 	Finished bool
 }
 
@@ -175,6 +296,7 @@ type execution struct {
 	baseSet  bool
 	problems []string // invariant violations seen during the run: "sig|detail"
 	fetchOpt []string // option names of the fetch point, index aligned
+	warming  bool     // the warm-up prelude is running (default document)
 }
 
 type ctxKey struct{}
@@ -232,13 +354,11 @@ func (t transport) RoundTrip(req *http.Request) (*http.Response, error) {
 	}
 	switch name {
 	case "ok", "rotate+ok":
-		var ks []string
 		if fl != nil {
-			ks = fl.Keys
-		} else {
-			ks, _ = e.sc.sets()
+			return mk(200, jwksBody(fl.Nominal, fl.Doc))
 		}
-		return mk(200, jwksBody(ks))
+		ks, _ := e.sc.sets()
+		return mk(200, jwksBody(ks, ""))
 	case "fail:500":
 		return mk(500, []byte(`internal error`))
 	case "fail:json":
@@ -261,6 +381,14 @@ func (e *execution) currentSet() []string {
 		return s1
 	}
 	return s0
+}
+
+// doc is the document variant a 200 answer released now would carry.
+func (e *execution) doc() string {
+	if e.warming {
+		return ""
+	}
+	return e.sc.Doc
 }
 
 func idxList(fs []*flight, pred func(*flight) bool) []int {
@@ -391,6 +519,7 @@ func runIn(sc scen, ch *engine.Chooser) engine.Result {
 	// prelude: warm the cache with one ordinary verification (default choices only)
 	if sc.Warm {
 		done := false
+		e.warming = true
 		e.s.Spawn("warm", nil, func() {
 			_, err := e.ks.VerifySignature(context.Background(), jwsCache["k1/3"])
 			if err != nil {
@@ -413,6 +542,7 @@ func runIn(sc scen, ch *engine.Chooser) engine.Result {
 		}
 		// the warm-up's download is part of the initial state, not of the explored history
 		e.flights = nil
+		e.warming = false
 		s0, _ := sc.sets()
 		e.base, e.baseSet = s0, true
 	}
@@ -566,11 +696,12 @@ func (e *execution) fire(c vsync.Choice) {
 		if fl != nil {
 			fl.Released = true
 			switch {
-			case name == "ok":
-				fl.Outcome, fl.Keys = "ok", e.currentSet()
-			case name == "rotate+ok":
-				e.rotated = true
-				fl.Outcome, fl.Keys = "ok", e.currentSet()
+			case name == "ok" || name == "rotate+ok":
+				if name == "rotate+ok" {
+					e.rotated = true
+				}
+				fl.Outcome, fl.Nominal, fl.Doc = "ok", e.currentSet(), e.doc()
+				fl.Keys, fl.Either = servedKeys(fl.Nominal, fl.Doc), docEither(fl.Doc)
 			case name == "abort":
 				fl.Outcome = "abort"
 			default:
@@ -583,12 +714,53 @@ func (e *execution) fire(c vsync.Choice) {
 	e.s.Fire(c, extra)
 }
 
-// judge evaluates the reference model on the finished execution.
+// judge evaluates the reference model on the finished execution. When the history
+// contains 200 answers whose document the statement does not classify (docKind.Either)
+// the execution is fine if it is fine under one of the two readings, applied to all
+// such answers alike: "served" (a good download of the other keys) or "failed" (a
+// malformed download: it fails its waiters and leaves the cache alone).
 func (e *execution) judge() engine.Result {
+	either := false
+	for _, f := range e.flights {
+		if f.Outcome == "ok" && f.Either {
+			either = true
+		}
+	}
+	if !either {
+		return e.judge1("")
+	}
+	pre := append([]string(nil), e.problems...)
+	r := e.judge1("served")
+	if r.Sig == "" || r.Rule == "internal" {
+		return r
+	}
+	e.problems = pre
+	if r2 := e.judge1("failed"); r2.Sig == "" {
+		return r2
+	}
+	return r
+}
+
+func (e *execution) judge1(reading string) engine.Result {
 	sc := e.sc
 	var warm []string
 	if sc.Warm {
 		warm, _ = sc.sets()
+	}
+	failedReading := reading == "failed"
+	initBase := "none"
+	if sc.Warm {
+		initBase = strings.Join(warm, "+")
+	}
+	outcomeOf := func(f *flight) string {
+		if f.Outcome == "ok" && failedReading {
+			if !f.Either {
+				// every 200 answer of a scenario carries the same document kind; the "failed" reading relies on it (the cache model stays at the initial set)
+				e.problem("INTERNAL", "a scenario mixes classified and unclassified JWKS documents")
+			}
+			return "fail:doc"
+		}
+		return f.Outcome
 	}
 	var outs []string
 	rule := "safety+completeness+single-flight+cache-preserved+termination"
@@ -610,26 +782,31 @@ func (e *execution) judge() engine.Result {
 		}
 		// W: the key sets it may legitimately rely on
 		var W [][]string
-		switch c.BaseAtStart {
+		baseAtStart := c.BaseAtStart
+		if failedReading {
+			baseAtStart = initBase
+		}
+		switch baseAtStart {
 		case "none":
 		case "empty":
 			W = append(W, []string{})
 		default:
-			W = append(W, strings.Split(c.BaseAtStart, "+"))
+			W = append(W, strings.Split(baseAtStart, "+"))
 		}
 		envFail, abortInWindow := false, false
 		for _, fi := range c.ReleasedAtRet {
 			f := e.flights[fi]
-			if f.Outcome == "ok" {
+			oc := outcomeOf(f)
+			if oc == "ok" {
 				U = append(U, f.Keys)
 			}
 			if finishedAtStart[fi] {
 				continue
 			}
 			switch {
-			case f.Outcome == "ok":
+			case oc == "ok":
 				W = append(W, f.Keys)
-			case f.Outcome == "abort":
+			case oc == "abort":
 				abortInWindow = true
 			default:
 				envFail = true
@@ -642,7 +819,7 @@ func (e *execution) judge() engine.Result {
 			}
 			any := false
 			for _, K := range U {
-				if acceptable(kind, K) {
+				if acceptable(kind, dedupe(K)) {
 					any = true
 				}
 			}
@@ -661,9 +838,9 @@ func (e *execution) judge() engine.Result {
 				windowFlights++
 			}
 		}
-		baseOK := len(W) > 0 && c.BaseAtStart != "none" && acceptable(kind, W[0])
+		baseOK := len(W) > 0 && baseAtStart != "none" && acceptable(kind, W[0])
 		var F [][]string // successful downloads it could have consumed
-		if c.BaseAtStart != "none" {
+		if baseAtStart != "none" {
 			F = W[1:]
 		} else {
 			F = W
@@ -671,13 +848,13 @@ func (e *execution) judge() engine.Result {
 		if windowFlights == 0 {
 			// it decided on the cache alone
 			switch {
-			case c.BaseAtStart == "none":
+			case baseAtStart == "none":
 				e.problem("C13/completeness/no-key-set-consulted/"+kind, fmt.Sprintf("caller %d (%s) failed with %q without cached keys and without any download", i, kind, c.err))
 			case baseOK:
-				e.problem("C13/completeness/valid-token-rejected/"+kind, fmt.Sprintf("caller %d (%s) failed with %q although the cached key set %s contains its key", i, kind, c.err, c.BaseAtStart))
-			case acceptable(kind, e.currentSet()) && !(sc.Skip && tokKinds[kind].KID == ""):
+				e.problem("C13/completeness/valid-token-rejected/"+kind, fmt.Sprintf("caller %d (%s) failed with %q although the cached key set %s contains its key", i, kind, c.err, baseAtStart))
+			case acceptable(kind, servedKeys(e.currentSet(), sc.Doc)) && !(sc.Skip && tokKinds[kind].KID == ""):
 				// "a token signed with a newly rotated key triggers a refresh and then verifies"
-				e.problem("C13/rotation/no-refresh-for-key-the-provider-serves/"+kind, fmt.Sprintf("caller %d (%s) failed with %q on the cached set %s without refreshing, while the provider serves %v", i, kind, c.err, c.BaseAtStart, e.currentSet()))
+				e.problem("C13/rotation/no-refresh-for-key-the-provider-serves/"+kind, fmt.Sprintf("caller %d (%s) failed with %q on the cached set %s without refreshing, while the provider serves %v", i, kind, c.err, baseAtStart, e.currentSet()))
 			}
 			continue
 		}
@@ -732,7 +909,11 @@ func (e *execution) judge() engine.Result {
 			if !e.baseSet {
 				want = nil
 			}
-			a, b := append([]string(nil), kids...), append([]string(nil), want...)
+			if failedReading {
+				want = warm
+			}
+			// compared as sets: a duplicated entry (or an encryption key with the key id of a signing key) may or may not be kept twice
+			a, b := dedupe(kids), dedupe(want)
 			sort.Strings(a)
 			sort.Strings(b)
 			if strings.Join(a, ",") != strings.Join(b, ",") {
@@ -754,6 +935,9 @@ func (e *execution) judge() engine.Result {
 		}
 	}
 	out := strings.Join(outs, ",") + fmt.Sprintf("|dl=%d", len(e.flights))
+	if reading != "" {
+		out += "|doc=" + reading
+	}
 	if len(e.problems) > 0 {
 		sort.Strings(e.problems)
 		sig, detail, _ := strings.Cut(e.problems[0], "|")
@@ -825,6 +1009,7 @@ func scenarios(c *engine.Check) []scen {
 	for _, k := range kinds {
 		add([]string{k}, false, fk)
 	}
+	out = append(out, docScenarios(kinds)...)
 	for _, toks := range multisets(kinds, n) {
 		add(toks, false, fk)
 	}
@@ -852,6 +1037,54 @@ func scenarios(c *engine.Check) []scen {
 	return out
 }
 
+// docVariants lists the JWKS document variants of the sequential dimension.
+func docVariants() []string {
+	out := []string{"plain", "onlyunk"}
+	for _, k := range []string{"unk", "dup", "enc", "badrsa", "badec", "crv", "num", "null"} {
+		for _, pos := range []string{"first", "middle", "last"} {
+			out = append(out, k+"@"+pos)
+		}
+	}
+	return out
+}
+
+// docScenarios: which document is served matters in the sequential dimension (what a
+// download yields), not in the interleaving dimension, so the variants get the
+// cheapest caller configurations only: one caller per token kind (every cache /
+// rotation situation; no failing answer, no cancellation — those are the business of
+// the scheduling scenarios), and two callers (two downloads in a row, the second after
+// a rotation or after a 5xx) for the variants the oracle is strict about. Scenarios
+// without rotation are contained in the "add" ones (the explorer may never pick
+// rotate+ok); "middle" differs from "first" only for the two-key set {k1,k2}.
+func docScenarios(kinds []string) []scen {
+	var out []scen
+	type sit struct {
+		warm bool
+		rot  string
+		pre  bool
+	}
+	sits := []sit{{false, "add", false}, {false, "replace", false}, {true, "add", false}, {true, "replace", false}, {true, "add", true}, {true, "replace", true}}
+	for _, doc := range docVariants() {
+		_, pos := splitDoc(doc)
+		for _, k := range kinds {
+			for _, s := range sits {
+				if pos == "middle" && s.rot != "add" {
+					continue
+				}
+				out = append(out, scen{Tokens: []string{k}, Warm: s.warm, Rot: s.rot, RotPre: s.pre, Doc: doc})
+			}
+		}
+	}
+	for _, doc := range []string{"plain", "onlyunk", "unk@last", "unk@middle", "dup@first", "enc@first", "badrsa@last"} {
+		for _, toks := range [][]string{{"k1", "k2"}, {"nokid", "unk"}} {
+			for _, warm := range []bool{false, true} {
+				out = append(out, scen{Tokens: toks, Warm: warm, Rot: "add", Doc: doc, MaxFail: 1, FailKinds: []string{"500"}})
+			}
+		}
+	}
+	return out
+}
+
 func TestCheck(t *testing.T) {
 	c := engine.Start(t, "C13")
 	defer c.Finish()
@@ -866,18 +1099,47 @@ func TestCheck(t *testing.T) {
 		anys[i] = scs[i]
 	}
 	maxB := engine.Pick(c, 1, 2)
+	docScens := 0
+	perScen := make([]atomic.Int64, len(scs))
+	for _, s := range scs {
+		if s.Doc != "" {
+			docScens++
+		}
+	}
+	runScen := func(w, si int, ch *engine.Chooser) engine.Result {
+		perScen[si].Add(1)
+		return run(t, w, scs[si], ch)
+	}
 	if c.ReplayFile != "" {
-		c.RunE3(engine.E3{Part: "sched", Bound: 1 << 20, Scens: anys, Run: func(w, si int, ch *engine.Chooser) engine.Result { return run(t, w, scs[si], ch) }})
+		c.RunE3(engine.E3{Part: "sched", Bound: 1 << 20, Scens: anys, Run: runScen})
 		return
 	}
 	for b := 0; b <= maxB; b++ {
-		c.RunE3(engine.E3{Part: "sched", Bound: b, Scens: anys, Run: func(w, si int, ch *engine.Chooser) engine.Result { return run(t, w, scs[si], ch) }})
+		c.RunE3(engine.E3{Part: "sched", Bound: b, Scens: anys, Run: runScen})
 		if c.Expired() {
 			break
 		}
 	}
 	c.Extra("unmanaged_lock_calls", vsync.Unmanaged.Load())
 	c.Extra("callers", engine.Pick(c, 2, 3))
+	var docRuns, allRuns int64
+	for i := range scs {
+		n := perScen[i].Load()
+		allRuns += n
+		if scs[i].Doc != "" {
+			docRuns += n
+		}
+	}
+	c.Extra("jwks_document_variants", docVariants())
+	c.Extra("jwks_document_scenarios", map[string]any{"scenarios": docScens, "of": len(scs), "executions_incl_reruns": docRuns, "of_executions": allRuns})
+	if f := os.Getenv("C13_SCEN_STATS"); f != "" {
+		var b strings.Builder
+		for i := range scs {
+			j, _ := json.Marshal(scs[i])
+			fmt.Fprintf(&b, "%d\t%d\t%s\n", i, perScen[i].Load(), j)
+		}
+		os.WriteFile(f, []byte(b.String()), 0o644)
+	}
 	c.Extra("preemption_bound_completed", maxB)
 	racePass(c)
 }
